@@ -1667,6 +1667,15 @@ class Interp:
                     return obj.get(k)
                 return d
             raise Unsupported(f"SymMap method {name}", node)
+        if isinstance(obj, list) and name == "sort":
+            keyf = kwargs.get("key")
+            keys = [self.call_value(keyf, (x,), {}, node) if keyf is not None else x for x in obj]
+            if not all(is_concrete(k_) and not isinstance(k_, Rec) for k_ in keys):
+                raise Unsupported("list.sort with symbolic keys", node)
+            order = sorted(range(len(obj)), key=lambda i_: keys[i_], reverse=bool(kwargs.get("reverse", False)))
+            obj[:] = [obj[i_] for i_ in order]
+            ctx.mutated(obj)
+            return None
         if isinstance(obj, list):
             if name in ("append", "insert", "extend", "pop", "remove", "clear", "reverse") and all(
                 not is_z3(a) or name in ("append", "insert") for a in args
